@@ -595,6 +595,7 @@ def nestedCase : P NCase := do
 
 structure HCase where
   id : String
+  ek : ErrKind
   gap : Nat
   mode : Mode
   fuel : Nat
@@ -604,8 +605,9 @@ structure HCase where
 
 def nestedHCase : P HCase := do
   let id ← tok
-  let ek ← tok
-  if ek != "rich" then throw s!"nested cases are Rich only, got {ek}"
+  let ek ← match (← tok) with
+    | "rich" => pure ErrKind.rich | "empty" => pure ErrKind.empty
+    | t => throw s!"nested cases are Rich or EmptyErr, got {t}"
   let gap ← nat
   let mode ← match (← tok) with
     | "parse" => pure Mode.emit | "check" => pure Mode.check
@@ -631,7 +633,7 @@ def nestedHCase : P HCase := do
   let i ← tok
   if i != "I" then throw "expected I"
   let inputs ← inputsP
-  pure { id, gap, mode, fuel, h := { hole := 0, a, b, groups := groups.reverse, gap }, main, inputs }
+  pure { id, ek, gap, mode, fuel, h := { hole := 0, a, b, groups := groups.reverse, gap }, main, inputs }
 
 def mkHEnvBase (gap : Nat) (toks : List Nat) : Env :=
   let n := toks.length
@@ -692,7 +694,7 @@ partial def loop (inp out : IO.FS.Stream) : IO Unit := do
     | .ok (c, _) =>
       let mut k := 0
       for ts in c.inputs do
-        let env := mkHEnvBase c.gap ts
+        let env := { mkHEnvBase c.gap ts with ek := c.ek }
         out.putStrLn s!"{c.id}.{k} M {renderTop (parseTopH c.h c.fuel env c.mode c.main)}"
         out.putStrLn s!"{c.id}.{k} S {renderSpec (pegTopH c.h c.fuel env c.main)}"
         k := k + 1
